@@ -176,6 +176,8 @@ def compare_status(
     """
     if cache_odb is None:
         cache_odb = src
+    # both sides are queried: a one-shot iterable must not be consumed by the first query
+    obj_ids = list(obj_ids)
     dest_exists, dest_missing = status(
         dest,
         obj_ids,
